@@ -1,5 +1,203 @@
 import PkVerif.Drv.Common
-/-! `pkmodel-c19`: stub (property not built yet). -/
+import PkVerif.Model.Sync
+import PkVerif.Gen.C19
+/-! `pkmodel-c19`: the sync state machine behind a line protocol.
+
+    up I ok|qseterr|srcerr              whole upload                       -> ack | err
+    upbegin I Q pre|post                upload parked before/after queue.Set -> parked | busy | err
+    upend I                             finish the parked upload           -> ack | err | none
+    copy I FAULT ok|qdelerr             whole copy attempt                 -> ok | fail | notpending | busy
+    cpbegin I FAULT DQ pre|post         copy parked before/after queue.Delete -> parked | ok | fail | notpending | busy
+    cpend I                             finish the parked copy             -> ok | none
+    drain FAULT I,I,…|-                 runSync until a batch copies nothing (listed ids fail with FAULT) -> copied=N | busy
+    restart                             crash + readQueueToMemory          -> need=N   (live: ok)
+    dump                                                                    -> state line
+    live                                (first op only) real syncLoop mode: only `up I ok`, `restart`, `settle`
+    settle                              (live) wait for quiescence         -> state line
+-/
 namespace Pk.Drv.C19
-def machine : Machine := { σ := Unit, init := (), step := fun s _ => (s, "bad-op") }
+open Pk Pk.Sync
+
+structure DSt where
+  s : St
+  /-- parked uploads: id, row write ok, parked after the row write -/
+  pu : List (Nat × Bool × Bool)
+  /-- parked copies: id, row deletion ok, parked after the deletion -/
+  pc : List (Nat × Bool × Bool)
+  live : Bool
+  started : Bool
+
+/-- the variant is the one read off the regenerated `enqueue` effects; no default -/
+def variant : Option Variant := variantOf Gen.syncEnqueueEffects
+
+def init : DSt := ⟨Sync.init, [], [], false, false⟩
+
+def parseId (w : String) : Option Nat :=
+  let cs := w.toList
+  if cs.isEmpty || cs.length > 4 then none
+  else if !cs.all Char.isDigit then none
+  else if cs.length > 1 && cs.head? == some '0' then none
+  else w.toNat?
+
+def parseFault : String → Option Fault
+  | "ok" => some .ok | "fetcherr" => some .fetchErr | "fetchsize" => some .fetchSize
+  | "shortread" => some .shortRead | "corrupt" => some .corrupt | "desterr" => some .destErr
+  | "destsize" => some .destSize | _ => none
+
+/-- `some true` = fine, `some false` = the queue write fails, `none` = the source store refuses -/
+def parseUp : String → Option (Option Bool)
+  | "ok" => some (some true) | "qseterr" => some (some false) | "srcerr" => some none | _ => none
+
+def parseDq : String → Option Bool
+  | "ok" => some true | "qdelerr" => some false | _ => none
+
+def parsePos : String → Option Bool
+  | "pre" => some false | "post" => some true | _ => none
+
+def parseIds (w : String) : Option (List Nat) :=
+  if w == "-" then some [] else (w.splitOn ",").mapM parseId
+
+def insertSorted (a : Nat) : List Nat → List Nat
+  | [] => [a]
+  | x :: xs => if a ≤ x then a :: x :: xs else x :: insertSorted a xs
+
+def sortNat (l : List Nat) : List Nat := l.foldr insertSorted []
+
+def joinNat (l : List Nat) : String := ",".intercalate ((sortNat l).map toString)
+
+def showDst (d : List (Nat × Nat)) : String :=
+  ",".intercalate ((sortNat (d.map (·.1))).map (fun i =>
+    match d.find? (·.1 == i) with
+    | some (_, p) => if p == i then toString i else toString i ++ "!"
+    | none => toString i))
+
+def dump (d : DSt) : String :=
+  s!"src={joinNat d.s.src} dst={showDst d.s.dst} rows={joinNat d.s.rows} need={joinNat d.s.need} " ++
+  s!"copying={joinNat d.s.copying} acked={joinNat d.s.acked} upl={joinNat (d.pu.map (·.1))} cps={joinNat (d.pc.map (·.1))}"
+
+def ack (ok : Bool) : String := if ok then "ack" else "err"
+
+/-- one whole copy attempt of `i`; returns the state and whether `copyBlob` returned nil -/
+def copyOnce (v : Variant) (s : St) (i : Nat) (f : Fault) (dq : Bool) : St × Bool :=
+  let s1 := step v (step v s (.cpStart i)) (.cpXfer i f)
+  if (i, CpPhase.xferred) ∈ s1.cps then
+    (step v (step v s1 (.qDel i dq)) (.cpEnd i), true)
+  else (step v s1 (.cpEnd i), false)
+
+/-- one `runSync` batch over the pending list; returns the number of blobs copied -/
+def batch (v : Variant) (s : St) (f : Fault) (bad : List Nat) : St × Nat :=
+  (sortNat s.need).foldl (fun (acc : St × Nat) i =>
+    let r := copyOnce v acc.1 i (if i ∈ bad then f else .ok) true
+    (r.1, if r.2 then acc.2 + 1 else acc.2)) (s, 0)
+
+/-- `for sh.runSync(…) > 0 {}` -/
+def drainLoop (v : Variant) (f : Fault) (bad : List Nat) : Nat → St → Nat → St × Nat
+  | 0, s, n => (s, n)
+  | fuel + 1, s, n =>
+    let r := batch v s f bad
+    if r.2 == 0 then (r.1, n) else drainLoop v f bad fuel r.1 (n + r.2)
+
+def drain (v : Variant) (s : St) (f : Fault) (bad : List Nat) : St × Nat :=
+  drainLoop v f bad (s.need.length + 2) s 0
+
+def stepLive (v : Variant) (d : DSt) (ws : List String) : DSt × String :=
+  match ws with
+  | ["up", i, "ok"] =>
+    match parseId i with
+    | some i =>
+      let s := step v (step v (step v d.s (.srcRecv i)) (.qSet i true)) (.memAdd i true)
+      ({ d with s := s }, "ack")
+    | none => (d, "bad-op")
+  | ["restart"] => ({ d with s := step v d.s .restart, pu := [], pc := [] }, "ok")
+  | ["settle"] =>
+    let r := drain v d.s .ok []
+    let d' := { d with s := r.1 }
+    (d', dump d')
+  | _ => (d, "bad-op")
+
+def stepV (v : Variant) (d : DSt) (ws : List String) : DSt × String :=
+  let d := { d with started := true }
+  match ws with
+  | ["up", i, q] =>
+    match parseId i, parseUp q with
+    | some i, some none => (d, "err")
+    | some i, some (some ok) =>
+      let s := step v (step v (step v d.s (.srcRecv i)) (.qSet i ok)) (.memAdd i ok)
+      ({ d with s := s }, ack ok)
+    | _, _ => (d, "bad-op")
+  | ["upbegin", i, q, pos] =>
+    match parseId i, parseUp q, parsePos pos with
+    | some i, some q, some post =>
+      if d.pu.any (·.1 == i) then (d, "busy") else
+      match q with
+      | none => (d, "err")
+      | some ok =>
+        let s1 := step v d.s (.srcRecv i)
+        let s2 := if post then step v s1 (.qSet i ok) else s1
+        ({ d with s := s2, pu := (i, ok, post) :: d.pu }, "parked")
+    | _, _, _ => (d, "bad-op")
+  | ["upend", i] =>
+    match parseId i with
+    | some i =>
+      match d.pu.find? (·.1 == i) with
+      | none => (d, "none")
+      | some (_, ok, post) =>
+        let s1 := if post then d.s else step v d.s (.qSet i ok)
+        ({ d with s := step v s1 (.memAdd i ok), pu := d.pu.filter (·.1 != i) }, ack ok)
+    | none => (d, "bad-op")
+  | ["copy", i, f, dq] =>
+    match parseId i, parseFault f, parseDq dq with
+    | some i, some f, some dq =>
+      if i ∉ d.s.need then (d, "notpending")
+      else if i ∈ d.s.copying then (d, "busy")
+      else
+        let r := copyOnce v d.s i f dq
+        ({ d with s := r.1 }, if r.2 then "ok" else "fail")
+    | _, _, _ => (d, "bad-op")
+  | ["cpbegin", i, f, dq, pos] =>
+    match parseId i, parseFault f, parseDq dq, parsePos pos with
+    | some i, some f, some dq, some post =>
+      if i ∉ d.s.need then (d, "notpending")
+      else if i ∈ d.s.copying then (d, "busy")
+      else
+        let s1 := step v (step v d.s (.cpStart i)) (.cpXfer i f)
+        if (i, CpPhase.xferred) ∈ s1.cps then
+          let s2 := if post then step v s1 (.qDel i dq) else s1
+          ({ d with s := s2, pc := (i, dq, post) :: d.pc }, "parked")
+        else ({ d with s := step v s1 (.cpEnd i) }, "fail")
+    | _, _, _, _ => (d, "bad-op")
+  | ["cpend", i] =>
+    match parseId i with
+    | some i =>
+      match d.pc.find? (·.1 == i) with
+      | none => (d, "none")
+      | some (_, dq, post) =>
+        let s1 := if post then d.s else step v d.s (.qDel i dq)
+        ({ d with s := step v s1 (.cpEnd i), pc := d.pc.filter (·.1 != i) }, "ok")
+    | none => (d, "bad-op")
+  | ["drain", f, ids] =>
+    match parseFault f, parseIds ids with
+    | some f, some bad =>
+      if !d.pc.isEmpty then (d, "busy") else
+      let r := drain v d.s f bad
+      ({ d with s := r.1 }, s!"copied={r.2}")
+    | _, _ => (d, "bad-op")
+  | ["restart"] =>
+    let s := step v d.s .restart
+    ({ d with s := s, pu := [], pc := [] }, s!"need={s.need.length}")
+  | ["dump"] => (d, dump d)
+  | _ => (d, "bad-op")
+
+def step (d : DSt) (ws : List String) : DSt × String :=
+  match variant with
+  | none => (d, "no-variant")
+  | some v =>
+    if d.live then stepLive v d ws
+    else if ws == ["live"] then
+      if d.started then ({ d with started := true }, "bad-op")
+      else ({ d with live := true, started := true }, "ok")
+    else stepV v d ws
+
+def machine : Machine := { σ := DSt, init := init, step := step }
+
 end Pk.Drv.C19
